@@ -295,10 +295,60 @@ def directed(ctx):
         sys.stderr = old_err
 
 
+def reset_in_same_round(ctx, rng, which):
+    """A flow's endpoint resets in the SAME select round in which traffic of another flow arrives on the mux, with
+    the faulty flow already half-closed by its peer: one real ssnet.runonce must survive it and the neighbour's
+    bytes must be intact.  `which` = the end whose endpoint resets."""
+    o = tg.Opts(nflows=2, steps=0)
+    sc = tg.Scenario(rng, o)
+    try:
+        t = sc.t
+        full = Io('ok', 'd65536', 's65536', False)
+        for _ in range(2):
+            sc.do(('accept',))
+        sc.do(('deliver', 's', 'ok'))
+        sc.do(('deliver', 's', 'ok'))
+        sc.do(('deliver', 's', 'ok'))
+        if sc.stop or len(t.flows) < 2:
+            return sc.s.ins, sc.s.outs
+        near, far = ('s', 'c') if which == 's' else ('c', 's')
+        far_eof = ('ae', 0) if which == 's' else ('de', 0)
+        far_side = 'app' if which == 's' else 'dst'
+        # flow 0: the far endpoint closes; its EOF crosses the tunnel and is processed at the near end
+        sc.do(far_eof)
+        sc.do(('cb', far, 0, full))
+        while (t.cmux.outbuf if far == 'c' else t.smux.outbuf) and not sc.stop:
+            sc.do(('deliver', near, 'ok'))
+        # flow 1: data on its way towards the near end, still in the queue
+        sc.env_write(1, far_side, tg.payload(rng, 3000, 4))
+        sc.do(('cb', far, 1, full))
+        sc.faulty.add(0)
+        # the round: flow 1's frames arrive on the mux file AND flow 0's near endpoint is ready and resets
+        sc.do(('round', near, 5, [0], Io('ok', 'x', 's65536', False)))
+        tg.oracle_alive(ctx, sc, 'C08', 'round with a reset and mux traffic')
+        if not sc.stop and not t.died:
+            sc.do(('ae', 1))
+            sc.do(('de', 1))
+            q = sc.drain()
+            tg.oracle_prefix(ctx, sc, 'C08', 'after the round')
+            tg.oracle_complete(ctx, sc, 'C08', q)
+            tg.oracle_alive(ctx, sc, 'C08', 'run')
+        return sc.s.ins, sc.s.outs
+    finally:
+        sc.close()
+
+
 def run(ctx):
     rng = ctx.rng
     directed(ctx)
     all_in, all_out = [], []
+    for which in ('s', 'c'):
+        ins, outs = reset_in_same_round(ctx, rng, which)
+        all_in.append(ins)
+        all_out.append(outs)
+        ctx.count()
+        ctx.mark(('reset-in-same-round', which), True)
+        ctx.hist('directed:reset-in-same-round')
     n = ctx.scale(60, 1500)
     for k in range(n):
         o = tg.Opts(nflows=rng.choice([1, 2, 3, 4]), steps=rng.randrange(20, 80), faults=True,
